@@ -3,6 +3,7 @@ package main
 import (
 	"fmt"
 	"go/constant"
+	"go/token"
 	"go/types"
 	"strings"
 
@@ -163,6 +164,10 @@ func ruleDrop(c *Ctx, rule string, fns []*ssa.Function) {
 				}
 			}
 			key := name + " -> " + calleeName
+			if onlyRelaysNilCallback(ci) {
+				c.OK(rule, key, c.P.Pos(ci.Pos()), "the callee's only error source is the callback handed to it here, and that callback returns nil on every path")
+				continue
+			}
 			if why, ok := dropExceptions[key]; ok {
 				c.OK(rule, key, c.P.Pos(ci.Pos()), "tabled exception: "+why)
 				continue
@@ -334,4 +339,89 @@ func ruleProceedTable(c *Ctx, rule string) {
 		}
 	}
 	c.Check(ok, rule, name, p.Pos(fn.Pos()), fmt.Sprintf("answers true exactly when the bucket has no error and (no checker or the checker selects the field): %d rows", rows), "ProceedWithSet "+why+" — a later setter would overwrite an earlier recorded error (e.g. a constraint veto) or write an unselected field")
+}
+
+// onlyRelaysNilCallback: the static callee of ci returns, as its error, only nil or the result of
+// calling one of its function parameters, and at this call the function handed in for every such
+// parameter is a literal closure that returns nil on every path.  Discarding that error loses nothing.
+func onlyRelaysNilCallback(ci ssa.CallInstruction) bool {
+	cc := ci.Common()
+	f := cc.StaticCallee()
+	if f == nil || f.Blocks == nil {
+		return false
+	}
+	ei := errorResultIndex(f.Signature)
+	if ei < 0 {
+		return false
+	}
+	relayed := map[int]bool{}
+	var okVal func(v ssa.Value, depth int) bool
+	okVal = func(v ssa.Value, depth int) bool {
+		if depth > 4 {
+			return false
+		}
+		if isNilConst(v) {
+			return true
+		}
+		switch x := v.(type) {
+		case *ssa.Phi:
+			for _, e := range x.Edges {
+				if !okVal(e, depth+1) {
+					return false
+				}
+			}
+			return true
+		case *ssa.UnOp:
+			// the result slot of a function with defers
+			if al, isAl := x.X.(*ssa.Alloc); isAl && x.Op == token.MUL {
+				n := 0
+				for _, r := range *al.Referrers() {
+					if st, isSt := r.(*ssa.Store); isSt && st.Addr == ssa.Value(al) {
+						n++
+						if !okVal(st.Val, depth+1) {
+							return false
+						}
+					}
+				}
+				return n > 0
+			}
+		case *ssa.Call:
+			if prm, ok := x.Call.Value.(*ssa.Parameter); ok && !x.Call.IsInvoke() {
+				for i, q := range f.Params {
+					if q == prm {
+						relayed[i] = true
+						return true
+					}
+				}
+			}
+		}
+		return false
+	}
+	for _, r := range returnsOf(f) {
+		if r.Block() == f.Recover {
+			continue
+		}
+		if ei >= len(r.Results) || !okVal(r.Results[ei], 0) {
+			return false
+		}
+	}
+	if len(relayed) == 0 {
+		return false
+	}
+	for i := range relayed {
+		if i >= len(cc.Args) {
+			return false
+		}
+		cl := anonFromArg(cc.Args[i])
+		if cl == nil || cl.Blocks == nil {
+			return false
+		}
+		cei := errorResultIndex(cl.Signature)
+		for _, r := range returnsOf(cl) {
+			if cei < 0 || !isNilConst(r.Results[cei]) {
+				return false
+			}
+		}
+	}
+	return true
 }
